@@ -14,7 +14,7 @@ const (
 	Stored Outcome = iota
 	Skipped
 	Rejected        // ErrCidTooLarge, store unchanged
-	SkippedOrReject // over-long identity CID with identity storing off: either is admissible, store unchanged
+	SkippedOrReject // (no longer produced: an over-long identity CID with identity storing off is Skipped)
 )
 
 // Model is the executable reference of a writable CAR store: an append-only
@@ -67,9 +67,8 @@ func (m *Model) Decide(b refcar.Block) Outcome {
 	}
 	tooLong := uint64(len(b.Cid)) > m.Cfg.EffMaxCid()
 	if c.IsIdentity() && !m.Cfg.StoreID {
-		if tooLong {
-			return SkippedOrReject
-		}
+		// skipped like an IdStore does, however long the CID: MaxIndexCidSize is documented as the
+		// limit for INDEXED CIDs, and this one is never indexed (the read side, LoadIndex, agrees)
 		return Skipped
 	}
 	if tooLong {
